@@ -445,13 +445,46 @@ class BuiltinMixin(object):
     return [(st, VStr(fresh('fmt', z3.StringSort())))]
 
   def b_isnan(self, st, args, kwargs):
-    return self.x_math_isnan(st, args, kwargs)
+    """Spec function (total): True exactly for a float NaN."""
+    v = args[0]
+    views = self.views(st, v) if isinstance(v, VVal) else None
+    if views is not None:
+      return [(st, VBool(z3.Or(*[z3.And(c, vv.f_isnan(tv.t)) for c, tv in views if isinstance(tv, VFloat)] + [z3.BoolVal(False)])))]
+    out = []
+    for s, r in self.resolve(st, v):
+      out.append((s, VBool(vv.f_isnan(r.t)) if isinstance(r, VFloat) else VBool(False)))
+    return out
 
   def b_isnum(self, st, args, kwargs):
     return self.b_isinstance(st, [args[0], VClass('numbers.Number')], {})
 
   def b_same(self, st, args, kwargs):
     return [(st, VBool(self.to_val(st, args[0]) == self.to_val(st, args[1])))]
+
+  def b_isfinite(self, st, args, kwargs):
+    v = args[0]
+    out = []
+    for s, r in self.resolve(st, v):
+      out.append((s, VBool(vv.fp_is_finite(r.t)) if isinstance(r, VFloat) else VBool(True)))
+    return out
+
+  def b_exact_class(self, st, args, kwargs):
+    obj, cls = args
+    if not isinstance(obj, VRef) or not isinstance(cls, VClass):
+      return [(st, VBool(False))]
+    if isinstance(obj.cls, ClassInfo) and obj.exact:
+      return [(st, VBool(obj.cls is cls.cls))]
+    return [(st, VBool(z3.And(obj.t != 0, st.classof(obj.t) == cls.cls.uid)))]
+
+  def b_cast(self, st, args, kwargs):
+    obj, cls = args
+    return [(st, VRef(cls.cls, obj.t, nullable=obj.nullable, exact=obj.exact, elem=obj.elem))]
+
+  def b_pattern_of(self, st, args, kwargs):
+    return [(st, VStr(z3.Function('re_pattern', z3.IntSort(), z3.StringSort())(args[0].t)))]
+
+  def b_re_match(self, st, args, kwargs):
+    return [(st, VBool(z3.Function('re_match', z3.StringSort(), z3.StringSort(), z3.BoolSort())(args[0].t, args[1].t)))]
 
   # --- spec helpers (also harmless in code: these names do not occur in /repo)
   def b_implies(self, st, args, kwargs):
@@ -506,6 +539,8 @@ class BuiltinMixin(object):
       return self.b_set(st, pos, kwargs)
     if name == 'object':
       return [(st, self.alloc(st, 'object'))]
+    if name == 'type' and len(pos) == 1:
+      return self.b_type(st, pos, kwargs)
     if not pos:
       return [(st, {'int': VInt(0), 'float': VFloat(0.0), 'str': VStr(''), 'bool': VBool(False), 'bytes': VBytes(b'')}[name])]
     out = []
@@ -551,7 +586,7 @@ class BuiltinMixin(object):
           for s, ok in self.branch(st, z3.And(i < lim, i > -lim)):
             if ok:
               for f in vv.int_to_fp_facts(i):
-                s.assume(f)
+                s.axiom(f)
             out.append((s, VFloat(vv.int_to_fp(i)) if ok else self.raise_builtin(s, 'OverflowError', 'int too large')))
           return out
         return [(st, VFloat(self.to_float(st, v)))]
@@ -971,6 +1006,23 @@ class BuiltinMixin(object):
     if isinstance(v, (VInt, VBool, VFloat, VStr, VBytes, VNone, VEnum, VTuple)):
       return [(st, v)]
     raise Unsupported('copy.copy of %r' % (v,))
+
+  def x_re_escape(self, st, args, kwargs):
+    self.ctx.use_trusted('re.escape')
+    out = []
+    for s, v in self.resolve(st, args[0]):
+      if isinstance(v, VStr):
+        out.append((s, VStr(z3.Function('re_escape', z3.StringSort(), z3.StringSort())(v.t))))
+      else:
+        out.append((s, self.raise_builtin(s, 'TypeError', 'expected string')))
+    return out
+
+  def x_re_compile(self, st, args, kwargs):
+    self.ctx.use_trusted('re.compile')
+    rx = self.alloc(st, 'regex')
+    st.pyheap[(self.oid_of(rx), 'pattern')] = args[0]
+    st.assume(z3.Function('re_pattern', z3.IntSort(), z3.StringSort())(rx.t) == args[0].t)
+    return [(st, rx)]
 
   def x_os_path_basename(self, st, args, kwargs):
     return [(st, VStr(z3.Function('basename', z3.StringSort(), z3.StringSort())(args[0].t)))]
